@@ -96,6 +96,31 @@ theorem find_sound_captures (re : Re) (s : Bytes) (a e : Nat) (c : Caps)
       MatchesC re p [] q c :=
   find_soundC h
 
+/-- one read-loop iteration written with the regex engine on the regenerated patterns, statement by
+statement as `(*Driver).read` does it: `PromptPattern.Match`, `bytes.Contains(b, "</rpc>")`,
+`Split(b, 2)[1]`, `getID(messageID.FindSubmatch(b))` -/
+def bufStepRx (v : Ver) (buf chunk : Bytes) : Bytes × Option (Nat × Bytes) :=
+  let b := buf ++ chunk
+  if isMatch (delimRe v) b then
+    if containsRpcClose b then (((split2 (delimRe v) b).map (·.2)).getD [], none)
+    else
+      match (findGroup Gen.Rx.Netconf.messageID b 1).map atoiClamp with
+      | some n => if n != 0 then ([], some (n, b)) else ([], none)
+      | none => ([], none)
+  else (b, none)
+
+/-- the full claim: the scanner-based read-loop step of the model is the regex-based one -/
+def BufStepIsRegex : Prop := ∀ v buf chunk, bufStep v buf chunk = bufStepRx v buf chunk
+
+/-- The read-loop step of the C08 model (scanners) equals the step computed with the regex engine
+on the regenerated patterns, for every framing version, buffer and chunk without `ſ`. -/
+theorem bufStep_eq_bufStepRx_partial (v : Ver) (buf chunk : Bytes)
+    (hb : isInfix [0xC5, 0xBF] (buf ++ chunk) = false) :
+    bufStep v buf chunk = bufStepRx v buf chunk := by
+  unfold bufStep bufStepRx afterFirstDelim
+  simp only [delimMatch_eq, afterFirstOpt_eq, firstId_eq_findGroup_partial _ hb]
+  rfl
+
 /-- The side condition cannot be dropped: the regex (as Go parses it) accepts `meſſage-id="7"`, the
 scanner does not. The model and the code differ on such texts (no NETCONF server sends them). -/
 theorem firstIdIsMatch_fails : ¬ FirstIdIsMatch := by
